@@ -77,155 +77,165 @@ packet string_ {
     @leftPad()
     zchar[0] Foo `say ""hi""`,
 }")).
-Eval vm_compute in ("<<<M1510>>>" ++ check (runes_of_ascii "root packet// " ++ [27880; 37322]%N ++ runes_of_ascii "
-	  crc
-	{	@lengthOf( As
-
-) 
-@calculatedFrom(""\" ++ [233]%N ++ runes_of_ascii """
-    )zchar[
-
-    4294967296] 
-MetaDataX
-
-    `doc` , 	 /// triple
-	rootA@calculatedFrom( ""it's"" ),
-@tag(
-	65535 )
-@tag(// c
-  7 )@tag(  00 
-//
-  // c
-) 
-len @lengthOf( A )
-    `two words` ,  
-      // trailing space 
-
-// " ++ [128512]%N ++ runes_of_ascii " emoji
-
-	string  rootA
-	@lengthOf(	pack 
-    // trailing space 
-  	//	t
-),
-    // " ++ [128512]%N ++ runes_of_ascii " emoji
-	// trailing space 
-	repeat zchar 
-,
-	@calculatedFrom( ""abc""
-
-    )@leftPad( '\x00' 
-) @rightPad
-
-    ( )
-match 
-x_y_z
-
-as
-	Z9_ {  ""it's""
-:Logon//x
-    ,
-	""x y"":	Packet  ,""abc""
-	:
-
-trueish 4294967296  // @lengthOf(
-	: repeatCount
-
-""" ++ [128512]%N ++ runes_of_ascii """
-:	x_y_z
-} ,
-	char[10 	 // @lengthOf(
-	] stringy  `it's`  , @leftPad	('\x00'
-
-    ) 
-rootA @lengthOf(
-i64_  )
-,  }  MetaData falsey
-{ Packet repeatCount
-`tab	here`
-, } MetaData
-
-string_
-{ float64
-    roots `line1
-line2`,
-	char  As	//
-  `
-`	,	zchar[ 65535
-	]falsey
-`a\`
-	, A 
-T
-	, _x  metadata
-
-    , }	packet
-_x 	 // packet A { u8 x, }
-{ zchar[
-
-255	]
-string_
-
-    @lengthOf( 
-    //	t
-	// @lengthOf(
-	  u128
-
-    )  `{ , }`  ,	}root packet	Packet {
-repeat 	 // " ++ [128512]%N ++ runes_of_ascii " emoji
-    lengthOf ,  }
-
-")).
-Eval vm_compute in ("<<<M174>>>" ++ check (runes_of_ascii "
-root packet asx { leftPad
-    {u128 @calculatedFrom( ""1""
-) , //x
-}
-, lengthOf // packet A { u8 x, }
-@calculatedFrom( """ ++ [128512]%N ++ runes_of_ascii """ ) `a\`
-, i64 // `tick` ""quote"" 'q'
-Packet @lengthOf(  calculatedFrom ) , @calculatedFrom(
-""" ++ [233]%N ++ runes_of_ascii "t" ++ [233]%N ++ runes_of_ascii """ ) stringy	a1 `doc` // `tick` ""quote"" 'q'
-, @rightPad
-    (
-    // a // b
-    )
-    // c
-    a1
-    `a\`
-,  char
-Header @lengthOf(
-    x )`say ""hi""`, uint8x
-Z9_ `tab	here` ,  }
+Eval vm_compute in ("<<<M1338>>>" ++ check (runes_of_ascii "// top
 options
-    {
-    calculatedFrom// packet A { u8 x, }
-= 0}	packet metadata {@leftPad ( '\x00'	) f32
-    pack
-//	t
-//
-, @tag( 65535 ) u32 uint8x @lengthOf( repeatCount) ``,MetaDataX	{ repeat options1 , match
-matchKey as len { """ ++ [128512]%N ++ runes_of_ascii """:
-    u8x	, 1 :
-zchar
-, /// triple
-[ ""a\\""
-    ,
-    ""x y"" ] : charz 0
-    :
-    x_y_z
-    //
-    ,[// trailing space 
-4294967296// `tick` ""quote"" 'q'
-]: asx  , [/// triple
-""a\""b"" , ""\n"" , ""\" ++ [233]%N ++ runes_of_ascii """ ,10 ] : _x ,
-    }	, uint8  metadata
-@lengthOf(float
-) ,
-zchar[
-    255] i8i8 , },
-    }root  packet
-f32a
-    { }")).
+    // c0
+{ ArrayPrefixLenType = // c3
+u64 // c4a
+  // c4b
+; FixedStringPadFromLeft // c6a
+  // c6b
+= true ; // c9
+FixedStringPadChar =
+    // c11
+'0' ; // c13
+} // c14
+packet // c15a
+  // c15b
+Quote // c16
+{ // c17a
+  // c17b
+}
+    // c18
+packet
+    // c19
+Ack // c20a
+  // c20b
+{
+    // c21
+repeat InNote66 { u8 pad0
+    // c26
+, // c27a
+  // c27b
+}
+    // c28
+, // c29
+}
+    // c30
+packet // c31a
+  // c31b
+Reject { // c33
+} // c34
+root // c35
+packet // c36
+Order { // c38
+Quote
+    // c39
+,
+    // c40
+repeat
+    // c41
+Reject
+    // c42
+,
+    // c43
+string venue , // c46a
+  // c46b
+string // c47a
+  // c47b
+seqNo
+    // c48
+,
+    // c49
+uint32 Ref // c51a
+  // c51b
+, // c52a
+  // c52b
+u16 lastPx
+    // c54
+, // c55
+u32
+    // c56
+clOrdID // c57
+@lengthOf( // c58
+Body ) ,
+    // c61
+match // c62a
+  // c62b
+lastPx as Body // c65
+{ // c66a
+  // c66b
+190 : Reject ,
+    // c70
+186 // c71
+: Quote // c73a
+  // c73b
+,
+    // c74
+22 // c75
+:
+    // c76
+Ack ,
+    // c78
+} // c79a
+  // c79b
+, // c80
+u16 // c81a
+  // c81b
+Flags // c82a
+  // c82b
+@calculatedFrom( ""CRC32"" ) ,
+    // c86
+} // c87a
+  // c87b
+")).
+Eval vm_compute in ("<<<M1841>>>" ++ check (runes_of_ascii "options {
+    FixedStringPadFromLeft = true;
+    FixedStringPadChar = '0';
+}
+
+packet Leg {
+    InPrice0 {
+        repeat string clOrdID,
+        int16 msgKind,
+        zchar[5] Px,
+    },
+    i16 f1,
+    repeat f64 Side2,
+    string Acct,
+}
+
+packet Cancel {
+    zchar[4] clOrdID,
+    string seqNo,
+    Leg,
+    @leftPad('0')
+    char[11] OrderId,
+}
+
+packet Quote {
+    repeat char[4] sym,
+    f64 OrderId,
+    repeat Leg,
+    repeat i64 f1,
+    int16 Note,
+    zchar[3] count,
+}
+
+root packet Ack {
+    @leftPad(' ')
+    char[10] sym,
+    InPx60 {
+        Cancel,
+        repeat char[1] f1,
+        string Tail,
+        repeat InNote55 {
+            int8 count,
+            f64 f1,
+            repeat Cancel,
+        },
+        char[] tag7,
+        repeat string msgKind,
+    },
+    u8 lastPx,
+    match lastPx as Body {
+        152 : Quote,
+        173 : Cancel,
+        4 : Leg,
+    },
+    u16 Ref @calculatedFrom(""CR\
+    C32""),
+}")).
 Eval vm_compute in ("<<<M221>>>" ++ check (runes_of_ascii "packet u128
 { @rightPad (
 ' ' )
@@ -608,34 +618,42 @@ line` , // " ++ [27880; 37322]%N ++ runes_of_ascii "
 u64 packetx,
 @calculatedFrom(  ""1"" ) repeat u16 calculatedFrom, }
 ")).
-Eval vm_compute in ("<<<M321>>>" ++ check (runes_of_ascii "
-options
-{ a1 = '\x00'
-As
-= ""{,}"" u8x
-=//x
-""a	b""
-    ; asx
-    = u64;
-o
-// @lengthOf(
-// c
-=0123456789 } packet Header
-{
-    //
-    @lengthOf(x // trailing space 
+Eval vm_compute in ("<<<M1526>>>" ++ check (runes_of_ascii "  packet Z9_ {@calculatedFrom(
+""packet""
+
 )
-    // " ++ [27880; 37322]%N ++ runes_of_ascii "
-    repeat
-falsey { repeatCount
-    trueish
-`u8 x,` , } ,
-// `tick` ""quote"" 'q'
-// " ++ [128512]%N ++ runes_of_ascii " emoji
-zchar[
-65535 ] x
+	char  //
+  BodyLength ,
+	match
+chars
+
+    as falsey{
+[
+65535
+
     ,
-}")).
+        // c
+	""" ++ [128512]%N ++ runes_of_ascii """, 
+""" ++ [28040; 24687]%N ++ runes_of_ascii """,""`tick`"", 10 ,
+	""a\\""
+
+,  ""a\""b""	// @lengthOf(
+
+] : 
+repeatCount
+,
+""x y""
+	:
+chars
+,  // " ++ [128512]%N ++ runes_of_ascii " emoji
+65535
+	: 	 //x
+  calculatedFrom  ,
+
+    }  , 
+}
+
+")).
 Eval vm_compute in ("<<<M1905>>>" ++ check (runes_of_ascii "  options
 {
 
